@@ -302,6 +302,7 @@ func checkC10(c *lib.Ctx) {
 		paths = append(paths, string(all[c.Rand.Intn(len(all))]))
 	}
 	starts := []string{"", "/", "/home/u", "rel/start", "/x/../y/"}
+	hungCalls := map[string]bool{} // a call that did not return once is not made again (each costs a hang deadline)
 	for _, sd := range starts {
 		h := &c10H{data: []byte("0123456789")}
 		var opts []sftp.RequestServerOption
@@ -365,17 +366,18 @@ func checkC10(c *lib.Ctx) {
 		}
 		for _, q := range paths {
 			for _, cc := range calls {
+				if hungCalls[cc.name] || c.Stop("c10/adapter/"+cc.name) {
+					continue
+				}
 				q2 := "t/" + q
 				h.take()
 				done := make(chan error, 1)
 				go func() { done <- cc.do(q, q2) }()
-				var cerr error
-				select {
-				case cerr = <-done:
-				case <-time.After(20 * time.Second):
+				cerr, returned := lib.WaitHang("c10/adapter/"+cc.name, 20*time.Second, done)
+				if !returned {
 					r.Fail(lib.Failure{Kind: "oracle", Key: "adapter/hang/" + cc.name, What: "client call did not return", Input: map[string]string{"start": sd, "path": lib.Hex([]byte(q))}})
-					p.Close()
-					return
+					hungCalls[cc.name] = true // the other calls go on (the connection still serves them)
+					continue
 				}
 				recs := h.take()
 				key := fmt.Sprintf("%s sd=%q q=%x", cc.name, sd, q)
@@ -418,7 +420,16 @@ func checkC10(c *lib.Ctx) {
 		}
 		// RealPath without a custom resolver is answered by the server itself with the cleaned path
 		for _, q := range paths {
-			got, err := cl.RealPath(q)
+			if hungCalls["RealPath"] || c.Stop("c10/adapter/RealPath") {
+				continue
+			}
+			var got string
+			var err error
+			if !lib.Within("c10/adapter/RealPath", 20*time.Second, func() { got, err = cl.RealPath(q) }) {
+				r.Fail(lib.Failure{Kind: "oracle", Key: "adapter/hang/RealPath", What: "client call did not return", Input: map[string]string{"start": sd, "path": lib.Hex([]byte(q))}})
+				hungCalls["RealPath"] = true
+				continue
+			}
 			r.Case(fmt.Sprintf("realpath sd=%q q=%x", sd, q), true)
 			if err != nil || got != exp(q) || !c10AbsClean(got) {
 				r.Fail(lib.Failure{Kind: "oracle", Key: "adapter/RealPath", What: "RealPath is not the clean absolute path under the start directory", Input: map[string]string{"start": sd, "path": lib.Hex([]byte(q))}, Expected: exp(q), Actual: fmt.Sprint(got, err)})
@@ -469,7 +480,15 @@ func checkC10(c *lib.Ctx) {
 			if ec.Kind == "ok" && ec.Err != nil && v.name != "Filecmd" {
 				continue
 			}
-			e := v.do()
+			if hungCalls["via/"+v.name] || c.Stop("c10/errkind/"+v.name) {
+				continue
+			}
+			var e error
+			if !lib.Within("c10/errkind/"+v.name, 20*time.Second, func() { e = v.do() }) {
+				r.Fail(lib.Failure{Kind: "oracle", Key: "errkind/hang/" + v.name, What: "client call did not return within 20 s", Input: map[string]string{"term": ec.Term, "via": v.name}})
+				hungCalls["via/"+v.name] = true
+				continue
+			}
 			k := c10KindOfClientErr(e)
 			if ec.Err == nil {
 				k = c10KindOfClientErr(e) // handlers succeed
@@ -497,7 +516,11 @@ func checkC10(c *lib.Ctx) {
 		}
 		if ec.Kind == "failure" && ec.Err != nil {
 			// "any other error as a failure carrying its text"
-			e := cl.Mkdir("/d")
+			var e error
+			if hungCalls["via/Filecmd"] || !lib.Within("c10/errkind/Filecmd", 20*time.Second, func() { e = cl.Mkdir("/d") }) {
+				hungCalls["via/Filecmd"] = true
+				continue
+			}
 			if _, m, _, ok := sftp.VerifStatusFields(e); !ok || m != ec.Err.Error() {
 				r.Fail(lib.Failure{Kind: "oracle", Key: "errkind/failure-text", What: "failure does not carry the handler error's text", Input: ec.Term, Expected: ec.Err.Error(), Actual: fmt.Sprint(e)})
 			}
